@@ -571,6 +571,32 @@ def _counts_every_item(F, f, depth=0):
             txt = str(b['s']) + str(b['t'].get('discr', ''))
             if mc <= f.argc and ("'l': %d, 'proj': ['*']" % mc) in txt:
                 count_blocks.add(bi)
+    # (d) counted in a loop of its own: every counting block sits in one loop that walks the whole, untruncated source list and is left only when that list ends
+    if not counting and count_blocks:
+        import arms as _arms
+        for hdr, body in f.cfg.natural_loops().items():
+            if not count_blocks <= body:
+                continue
+            lnext = [(bi, t) for bi, t in f.calls() if bi in body and t['func'].get('name') == 'next']
+            if len(lnext) != 1:
+                continue
+            nb, nt = lnext[0]
+            src = P.call_args(nb)[0]
+            chain = [x[1].get('name') for x in prov.walk(src, limit=300) if x[0] == 'call']
+            over_objects = any(x[0] == 'field' and x[2] == 'hit_objects' for x in prov.walk(src, limit=300))
+            cut = [c for c in chain if c in TRUNC_ADAPTORS]
+            exits = [(b, nb2) for b in body for nb2 in f.cfg.succ[b] if nb2 not in body and not f.blocks[nb2].get('cleanup') and
+                     f.blocks[nb2]['t']['k'] != 'unreachable']
+            none_exits = set()
+            for sb, info in _arms.enum_switches(f):
+                if sb in body and any(x[0] == 'call' and len(x) > 3 and x[3] == (f.path, nb) for x in prov.walk(info['cond'], limit=200)):
+                    for lab, tgt in info['edges']:
+                        if lab == 'None':
+                            none_exits.add((sb, tgt))
+            if over_objects and 'iter' in chain and not cut and exits and all(e in none_exits for e in exits):
+                return True, 'max_combo / n_diff_objects are counted in a loop of their own over the whole hit object list (no truncating adaptor, left only at the end of the list)'
+            if over_objects and cut:
+                return False, 'the counting loop walks the object list behind %s: the objects cut off there are never counted' % cut
     nexts = [(bi, t) for bi, t in f.calls() if t['func'].get('name') == 'next' and t.get('dest') and 'TaikoObject' in (f.locals[t['dest']['l']].get('s') or '')
              and (f.locals[t['dest']['l']].get('s') or '').startswith('std::option::Option<')]
     if not nexts or not count_blocks:
